@@ -30,6 +30,9 @@ COMMANDS = {
         "blink": ["d.blink(30)", "d.blink(20, 3)", "d.blink(duration_ms=15, times=2)", "d.blink(10, times=4)", "d.on()", "d.blink(25, 2)"],
         "fade": ["d.fade_in()", "d.fade_out()", "d.fade_in(50, 3)", "d.fade_out(step=60, delay_ms=2)", "d.fade_in(delay_ms=1, step=100)", "d.set_brightness(40)", "d.fade_in(64, 1)"],
         "flash_pattern": ["d.flash_pattern([1, 0, 1])", "d.flash_pattern([1, 1, 0, 1], 30)", "d.flash_pattern([0, 1], delay_ms=7)"],
+        # patterns of one entry, of equal entries, given as a tuple or through a variable; entry 1 is "fully on", other values are levels
+        "flash_pattern-short": ["d.flash_pattern([1])", "d.flash_pattern([0], 5)", "d.flash_pattern([1], 9)", "d.flash_pattern([128], 5)", "d.flash_pattern([255])", "d.flash_pattern((1,), 4)",
+                                "d.flash_pattern([1, 1], 6)", "d.flash_pattern([True], 3)", "d.flash_pattern([0, 0])", "d.flash_pattern([2, 1, 254], 5)"],
     },
     "RGBLed": {
         "set_color-on-off": ["d.set_color(1, 2, 3)", "d.off()", "d.on()", "d.on(10, 20, 30)", "d.on(red=5, green=0, blue=0)", "d.set_color(0, 0, 0)", "d.set_color(red=255, green=128, blue=64)"],
